@@ -466,6 +466,7 @@ func C17(c *vlib.Ctx) {
 	c.Rule("outbound: generated secret-version sets (1-5 versions, overlapping/adjacent/identical windows, bounds with fractional seconds, raw/env/file refs incl. unloadable ones), both selection modes and inline secrets, custom header names, compiled by config.Compile and mapped as `run` does; the real HTTPDeliverer (injected Now at valid_from/valid_until -1s/0/+1s/-1ns and far outside) posts to a local server (a third of the deliveries carry event headers named like the configured signing headers, with stale values) and the signature is recomputed over the request as received (method, path from the request line, body bytes read) with the independently selected version; no valid/loadable version => zero requests. inbound: the production loadAuth wiring with tolerance 2000000h, requests signed with every version/unknown/inline secret at the window boundaries. distinct_nontrivial = distinct (path class, selection mode, version count, inline) and (signer class, validity, status) classes.")
 	c.Assume("exact valid_from ties are broken by the smallest id (the ordering secrets.Set.ValidAt documents; the statement only says 'ties by id')")
 	c17Outbound(c)
+	c17Redirects(c)
 	c17Inbound(c)
 	deliverEdits(c)
 }
